@@ -73,6 +73,10 @@ def run(tier, seed):
                 base.update({"domain": [100], "user": [117], "password": [112, 119], "mode": "password", "flags": ntlm.FLAGS["default"], "sc": [9] * 8, "ti": [[7, [0] * 8]], "tname": []})
             base["id"] = "lens-" + kind
             plans.append(base)
+        # the same Ntlm object used for a second handshake: the security context must come from the second session key
+        for k, p in enumerate([q for q in plans if "exported" not in q and "steps" in q][:12]):
+            q = json.loads(json.dumps(p)); q["id"] = "reuse%d" % k; q["reuse"] = True
+            plans.append(q)
         plans.append({"id": "selftest", "exported": list(range(16)), "steps": [{"dir": "c2s", "len": 5, "tamper": "none"}, {"dir": "s2c", "len": 4, "tamper": "some"},
                                                                                {"dir": "c2s", "len": 0, "tamper": "none"}, {"dir": "s2c", "len": 9, "tamper": "none"}]})
         trace = ntlm.run(wd, plans, "c16")
